@@ -64,6 +64,11 @@ type Conn struct {
 	InEnd int
 	InErr error
 
+	armedAt      int  // InPos when the read deadline was last armed
+	pendingStall bool // the next Read reports an expiry (if legal)
+	// StallsFired counts expiries delivered after progress.
+	StallsFired int
+
 	closed    bool // Close called
 	CloseSeq  int64
 	broken    error
@@ -284,6 +289,17 @@ func (c *Conn) Read(p []byte) (int, error) {
 			w.log(Event{Kind: "read", Conn: c.Idx, Off: c.InPos, Err: c.broken.Error()})
 			return 0, c.broken
 		}
+		if c.pendingStall {
+			c.pendingStall = false
+			// an expiry is only legal under an armed deadline; it counts as
+			// progress-making when a byte arrived since the arming
+			if c.rdl && c.InPos > c.armedAt {
+				c.StallsFired++
+				c.InFaults++
+				w.log(Event{Kind: "read", Conn: c.Idx, Off: c.InPos, Err: "timeout after progress"})
+				return 0, &net.OpError{Op: "read", Net: "sim", Err: &timeoutError{"read"}}
+			}
+		}
 		avail := c.avail()
 		if avail == 0 {
 			if err := c.pendingReadErr(); err != nil {
@@ -348,6 +364,11 @@ func (c *Conn) Read(p []byte) (int, error) {
 		var err error
 		switch then {
 		case "timeout":
+			if n > 0 {
+				// a real connection reports the expiry on its own call
+				c.pendingStall = true
+				break
+			}
 			err = &net.OpError{Op: "read", Net: "sim", Err: &timeoutError{"read"}}
 			c.InFaults++
 		case "eof":
@@ -411,6 +432,7 @@ func (c *Conn) SetReadDeadline(t time.Time) error {
 	c.w.Mu.Lock()
 	defer c.w.Mu.Unlock()
 	c.rdl = !t.IsZero()
+	c.armedAt = c.InPos
 	if c.closed {
 		return &net.OpError{Op: "set", Net: "sim", Err: net.ErrClosed}
 	}
